@@ -120,6 +120,18 @@ def shapes(tier):
         ("fun", "h", [g.log(), g.exit(), g.lit()]),
         ("fun", "f", [("for", "i", "items", [g.block(inner_fin=[("call", "h", g.next_tag())], catches=1), g.log()]), g.lit()]),
         ("call", "f", g.next_tag()), g.lit()])
+    # a function whose whole body is a block holding a single `return <call>`
+    for nm, catches, fin in (("return-only-body-catch-finally", 2, True), ("return-only-body-finally", 0, True),
+                             ("return-only-body-catch", 1, False)):
+        def build(g, catches=catches, fin=fin):
+            cs = []
+            for i in range(catches):
+                cs.append((g.cv() if i == 0 else "all", [g.log(), g.exit(), g.lit()]))
+            f = [g.log(), g.exit(), g.log()] if fin else []
+            return [("fun", "h", [g.log(), g.exit(), g.lit()]),
+                    ("fun", "f", [("block", [("return_call", "h")], cs, f)]),
+                    ("call", "f", g.next_tag()), g.log(), g.lit()]
+        add(nm, build)
     add("loop-in-block", lambda g: [g.block(inner_body=[("for", "i", "items", [g.log(), g.exit(), g.log()])]), g.lit()])
     if tier != "quick":
         add("depth3-body", lambda g: [g.block(inner_body=[g.block(inner_body=[g.block(catches=1)], catches=1)]), g.lit()])
